@@ -24,6 +24,10 @@ pub struct XfrZoneUpdateIterator<'a, 'b> {
     iter: RecordIter<'b, Bytes, ZoneRecordData<Bytes, ParsedName<Bytes>>>,
 
     held_update: Option<ZoneUpdate<ParsedRecord>>,
+
+    /// True once [`IterationError::SingleSoaIxfrTcpRetrySignal`] has been
+    /// emitted by this iterator.
+    single_soa_signalled: bool,
 }
 
 impl<'a, 'b> XfrZoneUpdateIterator<'a, 'b> {
@@ -56,6 +60,7 @@ impl<'a, 'b> XfrZoneUpdateIterator<'a, 'b> {
             processor,
             iter,
             held_update: None,
+            single_soa_signalled: false,
         })
     }
 }
@@ -116,11 +121,20 @@ impl Iterator for XfrZoneUpdateIterator<'_, '_> {
                     //     with a single SOA record of the server's current
                     //     version to inform the client that a TCP query
                     //     should be initiated."
-                    if !self.processor.is_finished()
+                    //
+                    // Over TCP a response may be split over several
+                    // messages and the first one may well hold nothing but
+                    // the initial SOA record, so the transfer is NOT marked
+                    // as finished here: the signal is emitted once and the
+                    // caller decides, knowing the transport, whether to
+                    // retry via TCP or to pass the next response message to
+                    // the interpreter.
+                    if !self.single_soa_signalled
+                        && !self.processor.is_finished()
                         && self.processor.actual_xfr_type() == XfrType::Ixfr
                         && self.processor.rr_count() == 1
                     {
-                        self.processor.finish();
+                        self.single_soa_signalled = true;
                         return Some(Err(
                             IterationError::SingleSoaIxfrTcpRetrySignal,
                         ));
